@@ -812,3 +812,49 @@ def sink_err_sticky(ctx):
                     ctx.ok(key, f.loc(bi), 'the Err edge sets %s::%s before returning' % (sty, vname))
     if n == 0:
         ctx.anchor_missing('sink writes in the multi-threaded writers')
+
+
+@rule('PANIC-WAKE', ['C09', 'C10'], floor=4)
+def panic_wake(ctx):
+    """A worker that unwinds while it holds a work unit still wakes its coordinator: before any crate code is
+    called on the unit, the worker creates a guard value whose Drop implementation posts to the result
+    channel (the coordinator keeps a sender of its own, so a dead worker never disconnects the channel; the
+    only thing that ends a blocked recv() is a message)."""
+    F = ctx.facts
+    ws = worker_fns(F)
+    if not ws:
+        return ctx.anchor_missing('function calling WorkerHandle::steal')
+    # guard types: ADTs with a Drop impl whose drop (transitively, two levels) calls Sender::send
+    guards = set()
+    for f in F.fns:
+        if f.impl and last_seg(f.impl.get('trait')) == 'Drop' and f.name == 'drop' and f.self_adt:
+            sends = any(c.is_('Sender::send') for _, _, c in f.calls())
+            if sends:
+                guards.add(f.self_adt)
+    for f, sb, st in ws:
+        key = '%s:guard-before-unit-work' % fn_tag(f)
+        gblocks = [bi for bi, b in enumerate(f.blocks) if not b['cleanup'] for s in b['stmts']
+                   if s['k'] == 'assign' and s['rv']['r'] == 'agg' and s['rv'].get('adt') in guards]
+        if not gblocks:
+            ctx.violation(key, f.loc(sb), 'no guard that posts to the result channel when the worker unwinds: a panic while a unit is processed '
+                          '(e.g. in the encoder on unvalidated options) leaves the coordinator blocked in recv() forever')
+            continue
+        gb = gblocks[0]
+        # calls into the crate made in the loop after the steal must be dominated by the guard's creation
+        loops = [body for h, body in f.loops().items() if sb in body]
+        body = min(loops, key=len) if loops else set(f.reachable)
+        late = []
+        for bi, t, c in f.calls():
+            if bi not in body or bi == sb or f.blocks[bi]['cleanup']:
+                continue
+            if c.is_('WorkerHandle::steal') or not (c.local or (c.resolved and c.d.get('resolved_local'))):
+                continue
+            if c.name in ('set_error',):
+                continue
+            if not f.dominates(gb, bi):
+                late.append(bi)
+        if late:
+            ctx.violation(key, f.loc(late[0]), 'crate code runs on the stolen unit at %s before the unwinding guard exists' % f.loc(late[0]))
+        else:
+            ctx.ok(key, f.loc(gb), 'guard %s created before any unit work; its Drop posts to the result channel' % last_seg(
+                [s['rv']['adt'] for s in f.blocks[gb]['stmts'] if s['k'] == 'assign' and s['rv']['r'] == 'agg' and s['rv'].get('adt') in guards][0]))
